@@ -394,6 +394,85 @@ def interface_history(g, rng, queries=()):
         cmds += [dict(q) for q in queries]
     return cmds
 
+def dlgraph_history(g, rng, queries=(), boolean=True):
+    """difference-constraint graphs: several paths of different weight between the same vertices (diamonds), zero-weight
+    cycles, and a negated bound whose value sits at, just below or just above the shortest path, or between the light and
+    the heavy path; asserted in random order, some under Boolean structure, with checks in between"""
+    tb, S = g.tb, g.num
+    vs = list(g.nums)
+    rng.shuffle(vs)
+    def num(c): return tb.num(c, S)
+    def le(u, v, c):
+        return tb.app("<=", [tb.app("-", [u, v]), num(c)])
+    edges = {}
+    def add(u, v, c):
+        if u != v and (u, v) not in edges:
+            edges[(u, v)] = c
+    # a light path through all vertices and heavy shortcuts across it
+    for a, b in zip(vs, vs[1:]):
+        add(a, b, rng.choice([0, 1, 1, 2, -1]))
+    for _ in range(rng.randint(1, 3)):
+        i, j = sorted(rng.sample(range(len(vs)), 2))
+        if j - i >= 2:
+            add(vs[i], vs[j], rng.choice([5, 10, 7, 3]))
+    if rng.random() < 0.5:              # a zero-weight cycle
+        i = rng.randrange(len(vs) - 1)
+        c = edges[(vs[i], vs[i + 1])]
+        add(vs[i + 1], vs[i], -c)
+    for _ in range(rng.randint(0, 2)):
+        a, b = rng.sample(vs, 2)
+        add(a, b, rng.choice([0, 1, 2, 4, 10]))
+    # shortest paths (Bellman-Ford; the graph may have a negative cycle, then anything goes)
+    INF = 10**6
+    dist = {(a, b): (0 if a == b else INF) for a in vs for b in vs}
+    for (a, b), c in edges.items():
+        dist[(a, b)] = min(dist[(a, b)], c)
+    for k in vs:
+        for a in vs:
+            for b in vs:
+                if dist[(a, k)] + dist[(k, b)] < dist[(a, b)]:
+                    dist[(a, b)] = dist[(a, k)] + dist[(k, b)]
+    facts = [le(a, b, c) for (a, b), c in edges.items()]
+    reach = [(a, b) for a in vs for b in vs if a != b and dist[(a, b)] < INF]
+    goals = []
+    for _ in range(rng.randint(1, 3)):
+        if not reach:
+            break
+        a, b = rng.choice(reach)
+        d = dist[(a, b)]
+        k = d + rng.choice([0, -1, 1, 2, 3, -2])
+        goals.append(tb.app("not", [le(a, b, k)]) if rng.random() < 0.7 else tb.app(">", [tb.app("-", [a, b]), num(k)]))
+    rng.shuffle(facts)
+    cmds = []
+    depth = 0
+    bools = list(g.bools)
+    items = facts + goals
+    if rng.random() < 0.6:
+        rng.shuffle(items)
+    for i, f in enumerate(items):
+        if boolean and rng.random() < 0.25 and bools:
+            p_ = rng.choice(bools)
+            x = rng.random()
+            if x < 0.5:
+                cmds.append({"c": "assert", "t": tb.app("or", [tb.app("not", [f]) if f in facts and rng.random() < 0.3 else f, p_]), "nm": "", "inner": []})
+                cmds.append({"c": "assert", "t": tb.app("or", [f, tb.app("not", [p_])]), "nm": "", "inner": []})
+            else:
+                cmds.append({"c": "assert", "t": tb.app("or", [f, p_]), "nm": "", "inner": []})
+                cmds.append({"c": "assert", "t": tb.app("not", [p_]), "nm": "", "inner": []})
+        else:
+            cmds.append({"c": "assert", "t": f, "nm": "", "inner": []})
+        if rng.random() < 0.15:
+            cmds.append({"c": "push", "n": 1}); depth += 1
+        if rng.random() < 0.2:
+            cmds.append({"c": "check-sat"}); cmds += [dict(q) for q in queries]
+        if depth and rng.random() < 0.1:
+            cmds.append({"c": "pop", "n": 1}); depth -= 1
+    cmds.append({"c": "check-sat"}); cmds += [dict(q) for q in queries]
+    if depth:
+        cmds.append({"c": "pop", "n": 1})
+        cmds.append({"c": "check-sat"}); cmds += [dict(q) for q in queries]
+    return cmds
+
 def random_history(g, rng, n_assert=5, p_named=0.0, queries=(), max_depth=3, define_funs=True,
                    final_check=True, n_atoms=5, fdepth=2, min_checks=1, p_define=None):
     """body of an incremental script: asserts, push/pop, check-sat and queries after each check"""
